@@ -1020,6 +1020,576 @@ def run(ctx: Context):
         r.require(ok401, tw, tw.loc(), "a 401 from the mutable write is not translated to RemoteException (the direct "
                   "path raises BadWriteEnablerError as a remote failure)")
 
+    # ---------------------------------------------------------------- 7 -------
+    with ctx.rule("C31.7", "R1", "write_share_data writes exactly the bytes [start, stop) of the Content-Range: offset starts "
+                  "at start, the loop runs while bytes remain, both counters advance by len(data); every return without "
+                  "an error status was decided by `finished`", expected=5) as r:
+        w = idx.func(HS + ".write_share_data")
+        wcfg = w.cfg()
+        wn = FlowNorm(w)
+        reqp = first_positional_params(w)[0]
+        writes = [(n, c) for n in wcfg.nodes for c in calls_at(n, "write")
+                  if attr_path(c.func.value) not in (None, reqp) and not attr_path(c.func.value).startswith(reqp + ".")]
+        if not writes:
+            raise AnchorVanished("write_share_data no longer calls <bucket>.write")
+        pol = write_finished_edges(w)
+        fin_tests = [n for n in wcfg.nodes if n.kind == "test" and pol(n, ("T", n.ast)) is not None]
+        if not fin_tests:
+            raise AnchorVanished("write_share_data no longer tests the result of <bucket>.write")
+        for (n, c) in writes:
+            r.site(w, c, "bucket.write(offset, data)")
+            a_off, a_data = arg(c, 0, "offset"), arg(c, 1, "data")
+            if not r.require(isinstance(a_off, ast.Name) and isinstance(a_data, ast.Name), w, w.loc(c),
+                             "the share is written with %s (expected <offset variable>, <data variable>)" % src(w, c)):
+                continue
+            offv, datav = a_off.id, a_data.id
+            # data comes from the request body
+            ddefs = def_exprs(w).get(datav, [])
+            r.require(bool(ddefs) and all(isinstance(d, ast.Call) and call_tail(d) == "read"
+                                          and attr_path(d.func.value) == reqp + ".content" for d in ddefs),
+                      w, w.loc(c), "the data written (%s) is not what was read from %s.content: %s" % (
+                          datav, reqp, "; ".join(src(w, d) for d in ddefs) or "no definition"))
+            # remaining = <content range>.stop - offset
+            rems = []
+            for m in wcfg.nodes:
+                if m.kind == "stmt" and isinstance(m.ast, (ast.Assign, ast.AnnAssign)):
+                    tg = m.ast.targets[0] if isinstance(m.ast, ast.Assign) and len(m.ast.targets) == 1 else getattr(m.ast, "target", None)
+                    v = m.ast.value
+                    if isinstance(tg, ast.Name) and isinstance(v, ast.BinOp) and isinstance(v.op, ast.Sub) \
+                            and isinstance(v.right, ast.Name) and v.right.id == offv:
+                        lf = wn.norm(m, v.left)
+                        if lf.endswith(".stop") and "parse_content_range_header(" in lf:
+                            rems.append((m, tg.id, lf[: -len(".stop")]))
+            if not rems:
+                raise AnchorVanished("write_share_data: <remaining> = <content range>.stop - %s" % offv)
+            remv, base = rems[0][1], rems[0][2]
+            r.site(w, rems[0][0].ast, "remaining = stop - offset")
+            # offset: initial value and steps
+            r.site(w, None, "offset initial value / steps")
+            n_init = 0
+            for m in wcfg.find(stores(offv)):
+                st = step_of(w, m, offv)
+                if st is not None:
+                    r.require(st == ("+", norm_src("len(%s)" % datav)), w, w.loc(m.ast),
+                              "the write offset is advanced by %s%s, not by len(%s)" % (st[0], st[1], datav))
+                    continue
+                v = assign_value(m, offv)
+                n_init += 1
+                core = v
+                is0 = lambda e: isinstance(e, ast.Constant) and e.value == 0 and not isinstance(e.value, bool)
+                if isinstance(v, ast.BoolOp) and isinstance(v.op, ast.Or) and len(v.values) == 2 and is0(v.values[1]):
+                    core = v.values[0]          # `start or 0`: a missing start means 0
+                elif isinstance(v, ast.IfExp):
+                    tf = N(w).cmp(v.test, True)
+                    for (val, other, ops) in ((v.body, v.orelse, ("is not", "truth")), (v.orelse, v.body, ("is", "false"))):
+                        if is0(other) and tf[0] in ops and N(w).norm(val) in (tf[1], tf[2]):
+                            core = val          # `start if start is not None else 0`
+                ok = core is not None and not isinstance(core, ast.BoolOp) and wn.norm(m, core) == base + ".start"
+                r.require(ok, w, w.loc(m.ast), "the write offset starts at %s, not at the start of the Content-Range" % (
+                    src(w, v) if v is not None else "?"))
+            r.require(n_init >= 1, w, w.loc(), "the write offset %s has no initial value" % offv)
+            for m in wcfg.find(stores(remv)):
+                st = step_of(w, m, remv)
+                if st is not None:
+                    r.require(st == ("-", norm_src("len(%s)" % datav)), w, w.loc(m.ast),
+                              "the remaining count is changed by %s%s, not by -len(%s)" % (st[0], st[1], datav))
+
+            # loop guard: the write is reached only while bytes remain
+            def rem_form(m, _r=remv):
+                # the normaliser replaces a local by its definition where that is unique (e.g. in front of the loop)
+                return {_r, wn.norm(m, ast.Name(id=_r, ctx=ast.Load()))}
+
+            def more(m, lab):
+                f = wn.edge_fact(m, lab)
+                rf = rem_form(m) if f else set()
+                return bool(f) and ((f[0] == "<" and f[1] == "0" and f[2] in rf) or (f[0] == "truth" and f[1] in rf)
+                                    or (f[0] == "!=" and ((f[1] == "0" and f[2] in rf) or (f[2] == "0" and f[1] in rf))))
+
+            def done(m, lab):
+                f = wn.edge_fact(m, lab)
+                rf = rem_form(m) if f else set()
+                return bool(f) and ((f[0] == "<=" and f[1] in rf and f[2] == "0") or (f[0] == "false" and f[1] in rf)
+                                    or (f[0] == "==" and ((f[1] == "0" and f[2] in rf) or (f[2] == "0" and f[1] in rf))))
+            r.site(w, None, "loop guard")
+            for (t, wt) in find_path_avoiding(wcfg, lambda x, _n=n: x is _n, gate_edge=more, kill=stores(remv)):
+                r.violation(w, w.loc(t.ast), "the share is written on a path where `%s > 0` was not established: bytes of "
+                            "the range are skipped or written twice (path: %s)" % (remv, wt.brief()), wt)
+            for (t, wt) in find_path_avoiding(wcfg, lambda x: x in fin_tests, gate_edge=done, kill=stores(remv), start=n):
+                r.violation(w, w.loc(t.ast), "after a write the completion status is decided although bytes of the range may "
+                            "remain (`%s <= 0` not established; path: %s)" % (remv, wt.brief()), wt)
+            guards = [m for m in wcfg.nodes if m.kind == "test" and (more(m, ("T", m.ast)) or more(m, ("F", m.ast)))]
+            for (var, sign) in ((remv, "-"), (offv, "+")):
+                stepn = lambda m, _v=var, _s=sign: (step_of(w, m, _v) or ("", ""))[0] == _s
+                for (t, wt) in find_path_avoiding(wcfg, lambda x: x in guards or x in fin_tests, gate_node=stepn, start=n):
+                    r.violation(w, w.loc(n.ast), "after writing a block `%s` is not advanced by len(%s) before the next block "
+                                "/ the completion test (path: %s)" % (var, datav, wt.brief()), wt)
+        # error returns carry an error status
+        r.site(w, None, "early returns")
+        err_status = lambda m: any(not (200 <= code < 300) for (q, code) in set_codes(w) if q is m)
+        for (t, wt) in find_path_avoiding(wcfg, is_exit, gate_node=err_status,
+                                          gate_edge=lambda m, lab: pol(m, lab) is not None):
+            r.violation(w, w.loc(), "write_share_data can return without an error status on a path that never looked at "
+                        "`finished`: the client takes the implicit 200 for 'chunk stored, upload unfinished' (path: %s)" % wt.brief(), wt)
+
+    # ---------------------------------------------------------------- 8 -------
+    with ctx.rule("C31.8", "R1/R5", "client: every normal exit of a request function has seen a 2xx status; 201/200 lead to "
+                  "finished=True/False; the 206 body is returned from position 0; decoded fields map to the same-named "
+                  "result fields; _request serialises the message into the body", expected=16) as r:
+        for c in cli:
+            r.site(c.fn, c.call, "exits of %s" % short(c.fn))
+            for (t, wt) in find_path_avoiding(c.fn.cfg(), is_exit, gate_node=has_call("decode_cbor"),
+                                              gate_edge=success_edge_pred(c.fnorm), start=c.node):
+                r.violation(c.fn, c.fn.loc(c.call), "%s can return normally although the response status was not a success "
+                            "code: the HTTP error is swallowed where the direct path raises (path: %s)" % (short(c.fn), wt.brief()), wt)
+        # 201 -> finished True, 200 -> finished False
+        wc = idx.func("storage.http_client:StorageClientImmutables._write_share_chunk")
+        wcn = FlowNorm(wc)
+        ccfg = wc.cfg()
+        ups = [(n, c) for n in ccfg.nodes for c in calls_at(n, "UploadProgress")]
+        if not ups:
+            raise AnchorVanished("_write_share_chunk no longer builds UploadProgress")
+        r.site(wc, ups[0][1], "201/200 -> finished")
+        se = success_edges(wc, wcn)
+        for (n, c) in ups:
+            fa = kwarg(c, "finished") or arg(c, 0)
+            if not isinstance(fa, ast.Name):
+                continue        # reported by C31.3
+            for (code, val) in ((201, True), (200, False)):
+                if not r.require(code in se, wc, wc.loc(), "_write_share_chunk does not distinguish status %d" % code):
+                    continue
+                sets = lambda m, _v=val, _nm=fa.id: _nm in node_stores(m) and isinstance(assign_value(m, _nm), ast.Constant) \
+                    and assign_value(m, _nm).value is _v
+                for (m, lab) in se[code]:
+                    for (t, wt) in from_edge(ccfg, m, lab, lambda x, _n=n: x is _n, gate=sets):
+                        r.violation(wc, wc.loc(m.ast), "status %d reaches UploadProgress without finished=%s being set "
+                                    "(path: %s)" % (code, val, wt.brief()), wt)
+        # read_share_chunk: body of a 206
+        rc = idx.func("storage.http_client:read_share_chunk")
+        rcn = FlowNorm(rc)
+        rcfg2 = rc.cfg()
+        req = [x for x in cli if x.fn is rc]
+        if not req:
+            raise AnchorVanished("read_share_chunk request")
+        respv = [nm for nm in node_stores(req[0].node) if "." not in nm and not nm.endswith("[]")]
+        if len(respv) != 1:
+            raise AnchorVanished("read_share_chunk: response variable")
+        respv = respv[0]
+        r.site(rc, None, "206 body")
+        se = success_edges(rc, rcn)
+        r.require(206 in se, rc, rc.loc(), "read_share_chunk does not handle 206")
+        for (m, lab) in se.get(206, []):
+            for (t, wt) in from_edge(rcfg2, m, lab, is_return):
+                v = t.ast.value
+                deps = depends_on(rc, v) if v is not None else set()
+                r.require(v is not None and any(d == respv or d.startswith(respv + ".") for d in deps), rc, rc.loc(t.ast),
+                          "a 206 answer is returned as %s, which does not come from the response body" % (
+                              src(rc, v) if v is not None else "None"))
+        bodies = [(n, nm) for n in rcfg2.nodes for nm in node_stores(n) if "." not in nm and not nm.endswith("[]")
+                  and any(call_tail(x) == "limited_content" for x in node_calls(n))]
+        if not bodies:
+            raise AnchorVanished("read_share_chunk no longer collects the body with limited_content")
+        for (bn, bv) in bodies:
+            r.site(rc, bn.ast, "body position")
+
+            def seek_state(m, _b=bv):
+                """'S' when node m rewinds the body to 0, 'X' when it moves it elsewhere / consumes it, None otherwise."""
+                out = None
+                for x in node_calls(m):
+                    if isinstance(x.func, ast.Attribute) and attr_path(x.func.value) == _b:
+                        if x.func.attr == "seek":
+                            a0 = x.args[0] if x.args else None
+                            a1 = x.args[1] if len(x.args) > 1 else kwarg(x, "whence")
+                            zero = isinstance(a0, ast.Constant) and a0.value == 0 and not isinstance(a0.value, bool)
+                            begin = a1 is None or (isinstance(a1, ast.Constant) and a1.value == 0) \
+                                or (attr_path(a1) or "").split(".")[-1] == "SEEK_SET"
+                            out = "S" if (zero and begin) else "X"
+                        elif x.func.attr in ("read", "readline", "readlines", "read1", "readinto", "write", "truncate"):
+                            out = "X"
+                return out
+
+            def tr(m, lab, nx, st):
+                if lab == "exc":
+                    return None
+                if m is not bn and any(nm == bv for nm in node_stores(m)):
+                    return None
+                s = seek_state(m)
+                return s if s is not None else st
+            vis, par = explore(rcfg2, "S", tr, start=bn)
+            flagged = set()
+            for (nid, st) in sorted(vis):
+                m = rcfg2.nodes[nid]
+                if m is bn or st == "S" or nid in flagged:
+                    continue
+                if any(isinstance(x.func, ast.Attribute) and attr_path(x.func.value) == bv and x.func.attr == "read"
+                       for x in node_calls(m)):
+                    flagged.add(nid)
+                    wt = witness(rcfg2, par, (nid, st))
+                    r.violation(rc, rc.loc(m.ast), "%s.read() is reached with the body not positioned at 0 (after a seek "
+                                "elsewhere / an earlier read): bytes of the chunk are lost (path: %s)" % (bv, wt.brief()), wt)
+        # decoded fields -> result fields
+        for (q, cls, want) in (
+                ("storage.http_client:StorageClientMutables._read_test_write_chunks", "ReadTestWriteResult",
+                 {"success": "success", "reads": "data"}),
+                ("storage.http_client:StorageClientImmutables._create", "ImmutableCreateResult",
+                 {"already_have": "already-have", "allocated": "allocated"})):
+            f = idx.func(q)
+            cs = calls_in_func(f, cls)
+            if not cs:
+                raise AnchorVanished("%s(..) in %s" % (cls, q))
+            ci = cmod.classes.get(cls)
+            if ci is None:
+                raise AnchorVanished("http_client.%s" % cls)
+            fields = [x for (x, _a) in class_fields(ci)]
+            fnm = FlowNorm(f)
+            node_of = {id(x): n for n in f.cfg().nodes for x in node_calls(n)}
+            for x in cs:
+                r.site(f, x, "%s fields" % cls)
+                got = {}
+                for i, fld in enumerate(fields):
+                    a = arg(x, i, fld)
+                    if a is not None and id(x) in node_of:
+                        a = fnm.resolve(node_of[id(x)], a)
+                    got[fld] = subscript_key(a) if a is not None else None
+                r.require(got == want, f, f.loc(x), "%s is built as %s from the decoded response; the server's keys mean %s" % (
+                    cls, got, want))
+        # _request: message -> body
+        rq = idx.func("storage.http_client:StorageClient._request")
+        rqn = FlowNorm(rq)
+        qcfg = rq.cfg()
+        mp_ = "message_to_serialize"
+        if mp_ not in rq.params:
+            raise AnchorVanished("_request(message_to_serialize)")
+        tq = [(n, c) for n in qcfg.nodes for c in node_calls(n) if call_name(c) == "self._treq.request"]
+        if not tq:
+            raise AnchorVanished("self._treq.request in StorageClient._request")
+        kwn = rq.node.args.kwarg.arg if rq.node.args.kwarg else None
+        r.site(rq, tq[0][1], "message body")
+
+        def stores_body(m):
+            a = m.ast
+            if not (m.kind == "stmt" and isinstance(a, ast.Assign) and len(a.targets) == 1):
+                return False
+            t = a.targets[0]
+            if not (isinstance(t, ast.Subscript) and isinstance(t.value, ast.Name) and t.value.id == kwn
+                    and isinstance(t.slice, ast.Constant) and t.slice.value == "data"):
+                return False
+            nms = names_in(a.value) | set(depends_on(rq, a.value))
+            return mp_ in nms and "dumps" in nms
+        present = [(m, lab) for m in qcfg.nodes if m.kind == "test" for lab in (("T", m.ast), ("F", m.ast))
+                   for f in [rqn.edge_fact(m, lab)] if f and ((f[0] == "is not" and {f[1], f[2]} == {"None", mp_})
+                                                               or (f[0] == "truth" and f[1] == mp_))]
+        for (n, c) in tq:
+            r.require(kwn is not None and any(k.arg is None and isinstance(k.value, ast.Name) and k.value.id == kwn
+                                              for k in c.keywords), rq, rq.loc(c),
+                      "treq.request is not given **%s: the serialised body is never sent" % kwn)
+            if present:
+                for (m, lab) in present:
+                    for (t, wt) in from_edge(qcfg, m, lab, lambda x, _n=n: x is _n, gate=stores_body):
+                        r.violation(rq, rq.loc(m.ast), "a request with a message reaches treq without %s['data'] = "
+                                    "dumps(%s): the body is not sent (path: %s)" % (kwn, mp_, wt.brief()), wt)
+            else:
+                for (t, wt) in find_path_avoiding(qcfg, lambda x, _n=n: x is _n, gate_node=stores_body):
+                    r.violation(rq, rq.loc(t.ast), "the message is never serialised into the request body (path: %s)" % wt.brief(), wt)
+
+    # ---------------------------------------------------------------- 9 -------
+    with ctx.rule("C31.9", "R1", "server plumbing: the route wrappers return the handler's result and let _HTTPError (204/4xx) "
+                  "through; read_range sends Content-Range as that header, registers the range producer in pull mode and "
+                  "returns its Deferred", expected=5) as r:
+        for (q, secrets_from) in (("storage.http_server:_authorized_route.decorator.handle_route", None),
+                                  ("storage.http_server:_authorization_decorator.decorator.route", "_extract_secrets")):
+            f = idx.func(q)
+            fc = f.cfg()
+            fnm = FlowNorm(f)
+            hparam = f.parent.params[0] if f.parent is not None and f.parent.params else None
+            if hparam is None:
+                raise AnchorVanished("%s: wrapped handler parameter" % q)
+            r.site(f, None, "wrapper returns handler result")
+            rets = fc.find(is_return)
+            r.require(bool(rets), f, f.loc(), "%s never returns the handler's result" % short(f))
+            va = f.node.args.vararg.arg if f.node.args.vararg else None
+            kwa = f.node.args.kwarg.arg if f.node.args.kwarg else None
+            for n in rets:
+                v = fnm.resolve(n, n.ast.value) if n.ast.value is not None else None
+                ok = isinstance(v, ast.Call) and isinstance(v.func, ast.Name) and v.func.id == hparam
+                if ok:
+                    pos = [a for a in v.args if not isinstance(a, ast.Starred)]
+                    ok = len(pos) == 3 and all(isinstance(a, ast.Name) for a in pos) \
+                        and pos[0].id == f.params[0] and pos[1].id == f.params[1]
+                    if ok and secrets_from is None:
+                        ok = pos[2].id == f.params[2]
+                    elif ok:
+                        ds = def_exprs(f).get(pos[2].id, [])
+                        ok = bool(ds) and all(isinstance(d, ast.Call) and call_tail(d) == secrets_from for d in ds)
+                    ok = ok and any(isinstance(a, ast.Starred) and isinstance(a.value, ast.Name) and a.value.id == va for a in v.args) \
+                        and any(k.arg is None and isinstance(k.value, ast.Name) and k.value.id == kwa for k in v.keywords)
+                r.require(ok, f, f.loc(n.ast), "%s returns %s instead of %s(%s, %s, <secrets>, *%s, **%s): the handler's "
+                          "body / Deferred is lost" % (short(f), src(f, n.ast.value) if n.ast.value is not None else "None",
+                                                       hparam, f.params[0], f.params[1], va, kwa))
+            for (t, wt) in find_path_avoiding(fc, is_exit, gate_node=is_return):
+                r.violation(f, f.loc(), "%s can end without returning the handler's result (path: %s)" % (short(f), wt.brief()), wt)
+            # _HTTPError must reach Klein's error handler (status 204 / 4xx) or be turned into that status here
+            for h in fc.nodes:
+                if h.kind == "except" and catches(h, "_HTTPError"):
+                    r.site(f, h.ast, "except _HTTPError")
+                    en = h.ast.name
+                    sets_code = lambda m, _e=en: any(c.args and attr_path(c.args[0]) == "%s.code" % _e
+                                                     for c in calls_at(m, "setResponseCode"))
+                    for (t, wt) in find_path_avoiding(fc, is_exit, gate_node=sets_code, start=h):
+                        r.violation(f, f.loc(h.ast), "%s catches _HTTPError and can return normally: a 204 (empty read) / 401 / "
+                                    "404 raised by a handler is answered as 200 (path: %s)" % (short(f), wt.brief()), wt)
+        rr = idx.func("storage.http_server:read_range")
+        rcfg = rr.cfg()
+        reqp = rr.params[0]
+        pcls = idx.cls("storage.http_server:_ReadRangeProducer")
+        pf = [f for (f, _a) in class_fields(pcls)]
+        prods = [(n, c) for n in rcfg.nodes for c in node_calls(n) if call_tail(c) == "_ReadRangeProducer"]
+        if not prods:
+            raise AnchorVanished("read_range no longer creates _ReadRangeProducer")
+        for (n, c) in prods:
+            r.site(rr, c, "producer registration")
+            # registered as the request's pull producer
+            regs = []
+            if isinstance(n.ast, ast.Assign) and len(n.ast.targets) == 1 and isinstance(n.ast.targets[0], ast.Name) and n.ast.value is c:
+                pv = n.ast.targets[0].id
+                regs = [(m, x) for m in rcfg.nodes for x in calls_at(m, "registerProducer")
+                        if isinstance(arg(x, 0, "producer"), ast.Name) and arg(x, 0, "producer").id == pv]
+            else:
+                regs = [(m, x) for m in rcfg.nodes for x in calls_at(m, "registerProducer") if arg(x, 0, "producer") is c]
+            regs = [(m, x) for (m, x) in regs if attr_path(x.func.value) == reqp]
+            if r.require(bool(regs), rr, rr.loc(c), "the range producer is not registered as the producer of %s "
+                         "(registerProducer(<producer>, False))" % reqp):
+                for (m, x) in regs:
+                    s = arg(x, 1, "streaming")
+                    r.require(isinstance(s, ast.Constant) and not s.value, rr, rr.loc(x),
+                              "_ReadRangeProducer is a pull producer but is registered with streaming=%s: resumeProducing is "
+                              "never called and the read hangs" % (src(rr, s) if s is not None else "?"))
+            # the Deferred the producer fires is what the handler returns
+            a_res = arg(c, pf.index("result"), "result") if "result" in pf else None
+            if not isinstance(a_res, ast.Name):
+                raise AnchorVanished("_ReadRangeProducer(result=<name>)")
+            vis, _par = explore(rcfg, 0, lambda a, lb, nx, st: None if (lb == "exc" or is_return(a)) else 0, start=n)
+            for (nid, _s) in sorted(vis):
+                m = rcfg.nodes[nid]
+                if is_return(m):
+                    r.require(isinstance(m.ast.value, ast.Name) and m.ast.value.id == a_res.id, rr, rr.loc(m.ast),
+                              "after registering the range producer read_range returns %s, not the Deferred %s the producer "
+                              "fires when done: the response is finished before the data is written" % (
+                                  src(rr, m.ast.value) if m.ast.value is not None else "None", a_res.id))
+            for (t, wt) in find_path_avoiding(rcfg, is_exit, gate_node=is_return, start=n):
+                r.violation(rr, rr.loc(), "read_range can end without returning the producer's Deferred (path: %s)" % wt.brief(), wt)
+        crs = [(m, x) for m in rcfg.nodes for x in node_calls(m) if call_tail(x) == "ContentRange"]
+        r.site(rr, crs[0][1] if crs else None, "Content-Range header")
+        for (m, x) in crs:
+            hs = [y for y in calls_at(m, "setHeader") if len(y.args) == 2 and isinstance(y.args[0], ast.Constant)
+                  and str(y.args[0].value).lower() == "content-range" and any(z is x for z in ast.walk(y.args[1]))
+                  and attr_path(y.func.value) == reqp]
+            if not hs and isinstance(m.ast, ast.Assign) and len(m.ast.targets) == 1 and isinstance(m.ast.targets[0], ast.Name):
+                hv = m.ast.targets[0].id
+                hs = [y for k in rcfg.nodes for y in calls_at(k, "setHeader") if len(y.args) == 2
+                      and isinstance(y.args[0], ast.Constant) and str(y.args[0].value).lower() == "content-range"
+                      and hv in names_in(y.args[1]) and attr_path(y.func.value) == reqp]
+            r.require(bool(hs), rr, rr.loc(x), "%s is not sent as the value of the content-range header of %s; the client "
+                      "takes the chunk length from that header" % (src(rr, x), reqp))
+
+    # ---------------------------------------------------------------- 10 ------
+    with ctx.rule("C31.10", "R1", "handlers do the storage-server operation before answering success, and raise the error "
+                  "statuses the adapter translates (404 lease / corrupt-share, 401 bad write enabler) exactly in those cases",
+                  expected=5) as r:
+        # add_or_renew_lease
+        al = idx.func(HS + ".add_or_renew_lease")
+        alc = al.cfg()
+        aln = FlowNorm(al)
+        ap = first_positional_params(al)      # request, authorization, storage_index
+        backend = idx.func("storage.server:StorageServer.add_lease")
+        bp = first_positional_params(backend)
+        nmz = N(al)
+
+        def lease_call(m):
+            for x in calls_at(m, "add_lease"):
+                if attr_path(x.func.value) != "self._storage_server":
+                    continue
+                got = [arg(x, i, p) for i, p in enumerate(bp[:3])]
+                if all(g is not None for g in got) and [nmz.norm(g) for g in got] == [
+                        norm_src(ap[2]), norm_src("%s[Secrets.LEASE_RENEW]" % ap[1]), norm_src("%s[Secrets.LEASE_CANCEL]" % ap[1])]:
+                    return True
+            return False
+        r.site(al, None, "lease is added before 204")
+        for (t, wt) in find_path_avoiding(alc, is_exit, gate_node=lease_call):
+            r.violation(al, al.loc(), "add_or_renew_lease can answer success without self._storage_server.add_lease(%s, "
+                        "%s[Secrets.LEASE_RENEW], %s[Secrets.LEASE_CANCEL]): the direct path adds the lease (path: %s)" % (
+                            ap[2], ap[1], ap[1], wt.brief()), wt)
+
+        def no_shares(m, lab):
+            f = aln.edge_fact(m, lab)
+            if not f:
+                return False
+            e = f[1] if f[0] == "false" else (f[2] if f[0] == "==" and f[1] == "0" else (f[1] if f[0] == "==" and f[2] == "0" else None))
+            return e is not None and "self._storage_server." in e and "(%s)" % ap[2] in e
+        for m in alc.nodes:
+            if raise_code(m) == 404:
+                for (t, wt) in find_path_avoiding(alc, lambda x, _m=m: x is _m, gate_edge=no_shares):
+                    r.violation(al, al.loc(m.ast), "404 is raised although the storage index may have shares: the adapter "
+                                "swallows 404, so the lease is silently not added (path: %s)" % wt.brief(), wt)
+        # abort_share_upload
+        ab = idx.func(HS + ".abort_share_upload")
+        abc = ab.cfg()
+        bparams = first_positional_params(ab)
+        bdefs = def_exprs(ab)
+        want_b = norm_src("self._uploads.get_write_bucket(%s, %s, %s[Secrets.UPLOAD])" % (bparams[2], bparams[3], bparams[1]))
+
+        def aborts(m):
+            for x in calls_at(m, "abort"):
+                rv = x.func.value
+                if isinstance(rv, ast.Name):
+                    ds = bdefs.get(rv.id, [])
+                    if ds and all(N(ab).norm(d) == want_b for d in ds):
+                        return True
+                elif N(ab).norm(rv) == want_b:
+                    return True
+            return False
+        r.site(ab, None, "upload is aborted before 200")
+        for (t, wt) in find_path_avoiding(abc, is_exit, gate_node=aborts):
+            r.violation(ab, ab.loc(), "abort_share_upload can answer success without aborting the BucketWriter found by %s "
+                        "(path: %s)" % (want_b, wt.brief()), wt)
+        # BadWriteEnablerError -> 401 ; unknown share -> 404
+        for (q, exc, code, why) in (
+                (HS + ".mutable_read_test_write", "BadWriteEnablerError", 401,
+                 "the adapter translates only 401 into the RemoteException the direct path raises"),
+                (HS + ".advise_corrupt_share_immutable", "KeyError", 404,
+                 "the adapter ignores only 404, as the direct path ignores unknown shares")):
+            f = idx.func(q)
+            fc = f.cfg()
+            hs = [h for h in fc.nodes if h.kind == "except" and (handler_names(h) or set()) & {exc}]
+            r.site(f, hs[0].ast if hs else None, "%s -> %d" % (exc, code))
+            if not r.require(bool(hs), f, f.loc(), "%s does not turn %s into status %d; %s" % (short(f), exc, code, why)):
+                continue
+            for h in hs:
+                sets_code = lambda m, _c=code: any(cd == _c for (qn, cd) in set_codes(f) if qn is m)
+                vis, par = explore(fc, 0, lambda a, lb, nx, st: None if (is_raise(a) or (sets_code(a) and lb != "exc")) else 0, start=h)
+                for (nid, st) in sorted(vis):
+                    m = fc.nodes[nid]
+                    if is_exit(m) or (is_raise(m) and raise_code(m) != code):
+                        r.violation(f, f.loc(h.ast), "%s: after %s the handler %s instead of answering %d; %s (path: %s)" % (
+                            short(f), exc, "returns normally" if is_exit(m) else "raises %s" % src(f, m.ast.exc) if m.ast.exc is not None
+                            else "re-raises", code, why, witness(fc, par, (nid, st)).brief()), witness(fc, par, (nid, st)))
+                        break
+        am = idx.func(HS + ".advise_corrupt_share_mutable")
+        amc = am.cfg()
+        amn = FlowNorm(am)
+        mpz = first_positional_params(am)
+        r.site(am, None, "404 only for unknown shares")
+
+        def absent(m, lab):
+            f = amn.edge_fact(m, lab)
+            return bool(f) and f[0] == "not in" and f[1] == mpz[3] and "self._storage_server." in f[2] and "(%s)" % mpz[2] in f[2]
+        for m in amc.nodes:
+            if raise_code(m) == 404:
+                for (t, wt) in find_path_avoiding(amc, lambda x, _m=m: x is _m, gate_edge=absent):
+                    r.violation(am, am.loc(m.ast), "404 is raised although the share may exist: the adapter ignores 404, so the "
+                                "corruption report is silently dropped (path: %s)" % wt.brief(), wt)
+
+    # ---------------------------------------------------------------- 11 ------
+    with ctx.rule("C31.11", "R5", "adapter results: 404 (and only 404) is swallowed where the direct path is silent; "
+                  "read-test-write returns (success, reads); allocate_buckets returns (already_have, writers of allocated); "
+                  "the Foolscap adapter passes write vectors and new_length through unchanged", expected=5) as r:
+        ad = idx.cls(ADAPTER)
+        ign = idx.func("storage_client:_ignore_404")
+        ic = ign.cfg()
+        inn = FlowNorm(ign)
+        r.site(ign, None, "404 swallowed")
+        e404 = [(m, lab) for m in ic.nodes if m.kind == "test" for lab in (("T", m.ast), ("F", m.ast))
+                if code_edge_pred(inn, 404)(m, lab)]
+        r.require(bool(e404), ign, ign.loc(), "_ignore_404 no longer tests for status 404")
+        for (m, lab) in e404:
+            for (t, wt) in from_edge(ic, m, lab, lambda x: is_return(x) or is_exit(x)):
+                if is_return(t) and not (t.ast.value is None or (isinstance(t.ast.value, ast.Constant) and t.ast.value.value is None)):
+                    r.violation(ign, ign.loc(t.ast), "a 404 failure is passed on (%s) instead of being swallowed; the direct "
+                                "path ignores corruption reports for unknown shares (path: %s)" % (src(ign, t.ast), wt.brief()), wt)
+        al = ad.methods.get("add_lease")
+        if al is None:
+            raise AnchorVanished("%s.add_lease" % ADAPTER)
+        alc = al.cfg()
+        aln = FlowNorm(al)
+        hs = [h for h in alc.nodes if h.kind == "except"]
+        r.site(al, hs[0].ast if hs else None, "only 404 swallowed")
+        for h in hs:
+            for (t, wt) in find_path_avoiding(alc, is_exit, gate_edge=code_edge_pred(aln, 404), start=h):
+                r.violation(al, al.loc(h.ast), "add_lease swallows an HTTP error other than 404; the direct path raises it "
+                            "(path: %s)" % wt.brief(), wt)
+        # read-test-write result
+        tw = ad.methods.get("slot_testv_and_readv_and_writev")
+        if tw is None:
+            raise AnchorVanished("%s.slot_testv_and_readv_and_writev" % ADAPTER)
+        twc = tw.cfg()
+        twn = FlowNorm(tw)
+        r.site(tw, None, "(success, reads)")
+        outs = [(n, n.ast.value) for n in twc.find(is_return)] + \
+               [(n, c.args[0]) for n in twc.nodes for c in calls_at(n, "returnValue") if c.args]
+        r.require(bool(outs), tw, tw.loc(), "slot_testv_and_readv_and_writev returns nothing")
+        twd = def_exprs(tw)
+        for (n, v) in outs:
+            v2 = twn.resolve(n, v) if v is not None else None
+            ok = isinstance(v2, ast.Tuple) and len(v2.elts) == 2 and all(isinstance(e, ast.Attribute) and isinstance(e.value, ast.Name)
+                                                                        for e in v2.elts)
+            if ok:
+                a, b = v2.elts
+                ok = a.attr == "success" and b.attr == "reads" and a.value.id == b.value.id and any(
+                    any(isinstance(x, ast.Call) and call_tail(x) == "read_test_write_chunks" for x in ast.walk(d))
+                    for d in twd.get(a.value.id, []))
+            r.require(ok, tw, tw.loc(n.ast), "the HTTP read-test-write returns %s; the direct path returns (success, "
+                      "{share: [data..]}) = (<result>.success, <result>.reads)" % (src(tw, v) if v is not None else "None"))
+        for (t, wt) in find_path_avoiding(twc, is_exit, gate_node=lambda m: is_return(m) or bool(calls_at(m, "returnValue"))):
+            r.violation(tw, tw.loc(), "slot_testv_and_readv_and_writev can end without a result (path: %s)" % wt.brief(), wt)
+        # allocate_buckets result
+        abm = ad.methods.get("allocate_buckets")
+        if abm is None:
+            raise AnchorVanished("%s.allocate_buckets" % ADAPTER)
+        abn = FlowNorm(abm)
+        r.site(abm, None, "(already_have, {allocated: writer})")
+        outs = [(n, n.ast.value) for n in abm.cfg().find(is_return) if n.ast.value is not None] + \
+               [(n, c.args[0]) for n in abm.cfg().nodes for c in calls_at(n, "returnValue") if c.args]
+        r.require(bool(outs), abm, abm.loc(), "allocate_buckets returns nothing")
+        for (n, v) in outs:
+            v2 = abn.resolve(n, v)
+            ok = isinstance(v2, ast.Tuple) and len(v2.elts) == 2 and isinstance(v2.elts[0], ast.Attribute) \
+                and v2.elts[0].attr == "already_have"
+            if ok:
+                d2 = abn.resolve(n, v2.elts[1])
+                ok = isinstance(d2, ast.DictComp) and len(d2.generators) == 1 and isinstance(d2.generators[0].iter, ast.Attribute) \
+                    and d2.generators[0].iter.attr == "allocated" \
+                    and attr_path(d2.generators[0].iter.value) == attr_path(v2.elts[0].value) \
+                    and isinstance(d2.key, ast.Name) and isinstance(d2.generators[0].target, ast.Name) \
+                    and d2.key.id == d2.generators[0].target.id
+                if ok:
+                    bw = [x for x in ast.walk(d2.value) if isinstance(x, ast.Call) and call_tail(x) == "_HTTPBucketWriter"]
+                    sn = (kwarg(bw[0], "share_number") or arg(bw[0], 2)) if bw else None
+                    ok = isinstance(sn, ast.Name) and sn.id == d2.key.id
+            r.require(ok, abm, abm.loc(n.ast), "allocate_buckets returns %s; the direct path returns (already_have, {n: writer of "
+                      "share n for n in allocated})" % src(abm, v))
+        # Foolscap adapter: identity on write vectors / new_length
+        fool = idx.func("storage_client:_StorageServer.slot_testv_and_readv_and_writev")
+        r.site(fool, None, "direct path passes (testv, writev, new_length)")
+        dcs = [x for x in ast.walk(fool.node) if isinstance(x, ast.DictComp) and isinstance(x.value, ast.Tuple)]
+        if not dcs:
+            raise AnchorVanished("wire_format_tw_vectors comprehension in %s" % fool.qual)
+        for dc in dcs:
+            tg = dc.generators[0].target
+            ok = isinstance(tg, ast.Tuple) and len(tg.elts) == 2 and all(isinstance(e, ast.Name) for e in tg.elts) \
+                and isinstance(dc.key, ast.Name) and dc.key.id == tg.elts[0].id and len(dc.value.elts) == 3
+            if ok:
+                vname = tg.elts[1].id
+
+                def sub_i(e, _v=vname):
+                    if isinstance(e, ast.Subscript) and isinstance(e.value, ast.Name) and e.value.id == _v \
+                            and isinstance(e.slice, ast.Constant):
+                        return e.slice.value
+                    return None
+                e0, e1, e2 = dc.value.elts
+                src0 = sub_i(e0.generators[0].iter) if isinstance(e0, ast.ListComp) and len(e0.generators) == 1 else sub_i(e0)
+                ok = src0 == 0 and sub_i(e1) == 1 and sub_i(e2) == 2
+            r.require(ok, fool, fool.loc(dc), "the Foolscap adapter sends %s per share; the HTTP path was compared against "
+                      "(tests of value[0], value[1], value[2])" % src(fool, dc.value))
+
 
 def fmt(keys):
     return "{" + ", ".join(sorted(("b" if k == "b" else "") + repr(v) for (k, v) in keys if (k, v) is not None)) + "}" \
@@ -1262,3 +1832,128 @@ class VectorMaps:
         tk = striple.generators[0].target.elts[0] if isinstance(striple.generators[0].target, ast.Tuple) else None
         r.require(isinstance(kk, ast.Name) and isinstance(tk, ast.Name) and kk.id == tk.id, s, s.loc(striple),
                   "share numbers are re-keyed by %s" % src(s, kk))
+
+
+# ------------------------------------------------------------------ helpers of the gap-review rules (C31.7 ..)
+def is_exit(n):
+    return n.kind == "exit"
+
+
+def success_edge_pred(fnorm):
+    """Gate edge: `<x>.code == <2xx>` holds."""
+    def g(n, lab):
+        f = fnorm.edge_fact(n, lab)
+        if not (f and f[0] == "=="):
+            return False
+        for a, b in ((f[1], f[2]), (f[2], f[1])):
+            c = code_of_form(a)
+            if b.endswith(".code") and c is not None and 200 <= c < 300:
+                return True
+        return False
+    return g
+
+
+def code_edge_pred(fnorm, code):
+    def g(n, lab):
+        f = fnorm.edge_fact(n, lab)
+        if not (f and f[0] == "=="):
+            return False
+        return (f[2].endswith(".code") and code_of_form(f[1]) == code) or (f[1].endswith(".code") and code_of_form(f[2]) == code)
+    return g
+
+
+def from_edge(cfg, n, lab, ends, gate=lambda m: False, gate_edge=None, follow_exc=False):
+    """Paths that leave n by the edge `lab` and reach a node satisfying `ends` without passing a gate node / gate edge
+    -> [(end node, Witness)]."""
+    out = []
+    for (d, l) in cfg.succ[n.id]:
+        if not C._lbl_eq(l, lab):
+            continue
+        first = cfg.nodes[d]
+
+        def tr(a, lb, nx, st):
+            if lb == "exc" and not follow_exc:
+                return None
+            if gate(a) and lb != "exc":
+                return None
+            if gate_edge is not None and gate_edge(a, lb):
+                return None
+            return 0
+        vis, par = explore(cfg, 0, tr, start=first)
+        for (nid, st) in sorted(vis):
+            m = cfg.nodes[nid]
+            if ends(m) and not (gate(m) and not is_exit(m)):
+                out.append((m, witness(cfg, par, (nid, st))))
+    return out
+
+
+def handler_names(n):
+    """Names of the exception classes an `except` node catches (None = bare except)."""
+    t = n.ast.type
+    if t is None:
+        return None
+    elts = t.elts if isinstance(t, ast.Tuple) else [t]
+    return {e.id if isinstance(e, ast.Name) else (e.attr if isinstance(e, ast.Attribute) else "?") for e in elts}
+
+
+def catches(n, name):
+    hn = handler_names(n)
+    return hn is None or bool(hn & {name, "Exception", "BaseException"})
+
+
+def step_of(fn, n, var):
+    """(sign, normal form of the amount) when node n is `var += e` / `var -= e` / `var = var +- e`; else None."""
+    a = n.ast
+    if n.kind != "stmt":
+        return None
+    nm = N(fn)
+    if isinstance(a, ast.AugAssign) and isinstance(a.target, ast.Name) and a.target.id == var \
+            and isinstance(a.op, (ast.Add, ast.Sub)):
+        return ("+" if isinstance(a.op, ast.Add) else "-", nm.norm(a.value))
+    if isinstance(a, ast.Assign) and len(a.targets) == 1 and isinstance(a.targets[0], ast.Name) and a.targets[0].id == var \
+            and isinstance(a.value, ast.BinOp) and isinstance(a.value.op, (ast.Add, ast.Sub)):
+        l, rr = a.value.left, a.value.right
+        if isinstance(l, ast.Name) and l.id == var:
+            return ("+" if isinstance(a.value.op, ast.Add) else "-", nm.norm(rr))
+        if isinstance(rr, ast.Name) and rr.id == var and isinstance(a.value.op, ast.Add):
+            return ("+", nm.norm(l))
+    return None
+
+
+def write_finished_edges(w):
+    """write_share_data: predicate (n, lab) -> polarity (True/False) of the `finished` test edge, or None."""
+    wdefs = def_exprs(w)
+    fin_names = {nm for nm, ds in wdefs.items() if any(isinstance(d, ast.Call) and call_tail(d) == "write"
+                                                      and attr_path(d.func.value) not in (None, "request") for d in ds)}
+
+    def pol(n, lab):
+        if n.kind != "test" or not isinstance(lab, tuple):
+            return None
+        e, p = n.ast, True
+        while isinstance(e, ast.UnaryOp) and isinstance(e.op, ast.Not):
+            e, p = e.operand, not p
+        if isinstance(e, ast.Compare) and len(e.ops) == 1 and isinstance(e.ops[0], (ast.Is, ast.Eq)) \
+                and isinstance(e.comparators[0], ast.Constant) and e.comparators[0].value in (True, False):
+            p = p if e.comparators[0].value else not p
+            e = e.left
+        if isinstance(e, ast.Name) and e.id in fin_names:
+            return (lab[0] == "T") == p
+        return None
+    return pol
+
+
+def raise_code(n):
+    """HTTP code of `raise _HTTPError(http.X ..)` at node n, else None."""
+    if not raises("_HTTPError")(n):
+        return None
+    e = n.ast.exc
+    if isinstance(e, ast.Call) and e.args:
+        return http_code(e.args[0])
+    return None
+
+
+def subscript_key(e):
+    """X["k"] -> "k" (str/bytes constant subscripts only)."""
+    if isinstance(e, ast.Subscript) and isinstance(e.slice, ast.Constant) and isinstance(e.slice.value, (str, bytes)):
+        return e.slice.value
+    return None
